@@ -1,1 +1,257 @@
 // Kani harnesses compiled inside rs-matter/src/sc/case/resumption.rs (module `verif_kani`).
+
+mod c07 {
+    use super::*;
+    use crate::sc::case::casep::CASE_RESUMPTION_ID_LEN;
+
+    /// Number of records the harnesses fill in (the compiled capacity MAX_RESUMPTION_RECORDS is 15/16:
+    /// with every record arbitrary up to capacity CBMC exhausts 12 GB within 2 minutes, measured).
+    const N: usize = 4;
+
+    /// Which byte of the 32-byte shared secret the snapshots look at (arbitrary, fixed per run).
+    static mut PROBE: usize = 0;
+
+    fn set_probe() {
+        let p: usize = kani::any();
+        kani::assume(p < 32);
+        unsafe { PROBE = p };
+    }
+
+    #[derive(Copy, Clone, PartialEq, Eq)]
+    struct Snap {
+        fab: u8,
+        node: u64,
+        cats: NocCatIds,
+        rid: [u8; CASE_RESUMPTION_ID_LEN],
+        secret_byte: u8,
+    }
+
+    const EMPTY: Snap = Snap { fab: 0, node: 0, cats: [0; 3], rid: [0; CASE_RESUMPTION_ID_LEN], secret_byte: 0 };
+
+    fn snap(r: &ResumableSession) -> Snap {
+        Snap {
+            fab: r.fab_idx.get(),
+            node: r.peer_nodeid,
+            cats: r.peer_cat_ids,
+            rid: *r.resumption_id.access(),
+            secret_byte: r.shared_secret.access()[unsafe { PROBE }],
+        }
+    }
+
+    fn any_record() -> ResumableSession {
+        let mut resumption_id = CaseResumptionId::new();
+        *resumption_id.access_mut() = kani::any();
+        let mut shared_secret = CanonPkcSharedSecret::new();
+        *shared_secret.access_mut() = kani::any();
+        ResumableSession {
+            fab_idx: kani::any(),
+            peer_nodeid: kani::any(),
+            peer_cat_ids: kani::any(),
+            resumption_id,
+            shared_secret,
+        }
+    }
+
+    /// Arbitrary cache of exactly `n` records. No invariant is assumed (not even "one record per
+    /// peer", which `load_persist` does not re-establish).
+    fn any_cache(n: usize) -> ResumableSessions {
+        let mut c = ResumableSessions::new();
+        for _ in 0..n {
+            let _ = c.records.push(any_record());
+        }
+        c
+    }
+
+    fn snapshot(c: &ResumableSessions) -> ([Snap; N], usize) {
+        let mut a = [EMPTY; N];
+        for (i, r) in c.records.iter().enumerate() {
+            if i < N {
+                a[i] = snap(r);
+            }
+        }
+        (a, c.records.len())
+    }
+
+    /// Snapshot with room for one more record (after an insertion).
+    #[allow(dead_code)]
+    fn snapshot5(c: &ResumableSessions) -> ([Snap; N + 1], usize) {
+        let mut a = [EMPTY; N + 1];
+        for (i, r) in c.records.iter().enumerate() {
+            if i <= N {
+                a[i] = snap(r);
+            }
+        }
+        (a, c.records.len())
+    }
+
+    /// Number of records among `a[0..upto]` satisfying `keep`.
+    #[allow(dead_code)]
+    fn count(a: &[Snap; N], upto: usize, keep: impl Fn(&Snap) -> bool) -> usize {
+        let mut k = 0;
+        for i in 0..N {
+            if i < upto && keep(&a[i]) {
+                k += 1;
+            }
+        }
+        k
+    }
+
+    // DID NOT CLOSE (12 GB exhausted even with 4 records: `Vec::retain` over records with drop glue) - kept for reference, not compiled.
+    #[cfg(any())]
+    /// After `remove_for_fabric(f)` no record carries `f`; the records of the other fabrics are
+    /// exactly the ones held before, in the same (LRU) order, bit for bit.
+    #[kani::proof]
+    #[kani::unwind(18)]
+    fn c07_resumption_remove_for_fabric() {
+        set_probe();
+        let n: usize = kani::any();
+        kani::assume(n <= N);
+        let mut c = any_cache(n);
+        let f: NonZeroU8 = kani::any();
+        let (before, blen) = snapshot(&c);
+
+        c.remove_for_fabric(f);
+
+        let (after, alen) = snapshot(&c);
+        let k: usize = kani::any();
+        kani::assume(k < alen);
+        kani::assert(after[k].fab != f.get(), "C07.resumption.remove_for_fabric.no_record_of_fabric_left");
+
+        let other = |s: &Snap| s.fab != f.get();
+        kani::assert(alen == count(&before, blen, other), "C07.resumption.remove_for_fabric.exactly_other_fabrics_left");
+        let j: usize = kani::any();
+        kani::assume(j < blen);
+        if before[j].fab != f.get() {
+            let rank = count(&before, j, other);
+            kani::assert(rank < alen && after[rank] == before[j], "C07.resumption.remove_for_fabric.other_records_unchanged_in_order");
+        }
+
+        // consequence at the two look-ups the CASE responder/initiator use
+        let node: u64 = kani::any();
+        kani::assert(c.find_by_peer(f, node).is_none(), "C07.resumption.remove_for_fabric.peer_lookup_finds_nothing");
+        let rid: [u8; CASE_RESUMPTION_ID_LEN] = kani::any();
+        kani::assert(
+            c.find_by_resumption_id(&rid).map(|r| r.fab_idx != f).unwrap_or(true),
+            "C07.resumption.remove_for_fabric.id_lookup_never_yields_fabric",
+        );
+
+        kani::cover!(alen + 2 <= blen && alen > 0, "dropped several, kept some");
+        kani::cover!(blen == N && alen == 0, "full cache of one fabric emptied");
+        kani::cover!(alen == blen && blen == N, "nothing to drop");
+    }
+
+    // TIER: quick
+    // KIND: bounded (cache holding at most 4 records; capacity MAX_RESUMPTION_RECORDS = 15/16)
+    /// `find_by_peer`: yields a record of exactly that `(fabric, node)` - the first one held - and
+    /// `None` only when the cache holds none.
+    #[kani::proof]
+    #[kani::unwind(18)]
+    fn c07_resumption_find_by_peer() {
+        set_probe();
+        let n: usize = kani::any();
+        kani::assume(n <= N);
+        let c = any_cache(n);
+        let f: NonZeroU8 = kani::any();
+        let node: u64 = kani::any();
+        let (before, blen) = snapshot(&c);
+        let first = (0..blen).find(|&i| before[i].fab == f.get() && before[i].node == node);
+
+        let r = c.find_by_peer(f, node).map(snap);
+
+        match first {
+            Some(i) => kani::assert(r == Some(before[i]), "C07.resumption.find_by_peer.yields_first_record_of_that_peer"),
+            None => kani::assert(r.is_none(), "C07.resumption.find_by_peer.none_when_no_record_of_that_peer"),
+        }
+        kani::assert(
+            r.map(|s| s.fab == f.get() && s.node == node).unwrap_or(true),
+            "C07.resumption.find_by_peer.never_yields_another_fabric_or_node",
+        );
+        kani::cover!(matches!(first, Some(i) if i + 1 == N), "found in the last slot of a full cache");
+        kani::cover!(first.is_none() && blen == N, "not found in a full cache");
+    }
+
+    // DID NOT CLOSE (CBMC returned 'undetermined' for every check after 420 s) - kept for reference, not compiled.
+    #[cfg(any())]
+    /// `find_by_resumption_id`: yields the first record whose id equals the 16 bytes given; any
+    /// other length matches nothing.
+    #[kani::proof]
+    #[kani::unwind(18)]
+    fn c07_resumption_find_by_resumption_id() {
+        set_probe();
+        let n: usize = kani::any();
+        kani::assume(n <= N);
+        let c = any_cache(n);
+        let buf: [u8; CASE_RESUMPTION_ID_LEN + 1] = kani::any();
+        let len: usize = kani::any();
+        kani::assume(len <= CASE_RESUMPTION_ID_LEN + 1);
+        let (before, blen) = snapshot(&c);
+
+        let r = c.find_by_resumption_id(&buf[..len]).map(snap);
+
+        if len == CASE_RESUMPTION_ID_LEN {
+            let first = (0..blen).find(|&i| (0..CASE_RESUMPTION_ID_LEN).all(|b| before[i].rid[b] == buf[b]));
+            match first {
+                Some(i) => kani::assert(r == Some(before[i]), "C07.resumption.find_by_id.yields_first_record_with_that_id"),
+                None => kani::assert(r.is_none(), "C07.resumption.find_by_id.none_when_no_record_with_that_id"),
+            }
+            kani::cover!(first.is_some(), "found");
+            kani::cover!(first.is_none() && blen == N, "not found in a full cache");
+        } else {
+            kani::assert(r.is_none(), "C07.resumption.find_by_id.wrong_length_matches_nothing");
+        }
+        kani::cover!(len == 0 && blen > 0, "empty id");
+        kani::cover!(len == CASE_RESUMPTION_ID_LEN + 1 && blen > 0, "over-long id");
+    }
+
+    // DID NOT CLOSE (12 GB exhausted even with 4 records: `Vec::retain` over records with drop glue) - kept for reference, not compiled.
+    #[cfg(any())]
+    /// `insert_or_update(rec)`: `rec` ends up at the tail as the only record of its peer; every other
+    /// record held afterwards was held before, unchanged and in the same order (so an insertion never
+    /// brings back a record of a fabric that was purged); at most the single least-recent record is
+    /// evicted, and only when the cache was full.
+    #[kani::proof]
+    #[kani::unwind(18)]
+    fn c07_resumption_insert_or_update() {
+        set_probe();
+        let n: usize = kani::any();
+        kani::assume(n <= N);
+        let mut c = any_cache(n);
+        let rec = any_record();
+        let new = snap(&rec);
+        let (before, blen) = snapshot(&c);
+
+        c.insert_or_update(rec);
+
+        let (after5, alen) = snapshot5(&c);
+        let after = after5;
+        let other = |s: &Snap| !(s.fab == new.fab && s.node == new.node);
+        let rem = count(&before, blen, other);
+        // (eviction needs a full cache = MAX_RESUMPTION_RECORDS records: outside this bound)
+        let evicted = if rem == MAX_RESUMPTION_RECORDS { 1 } else { 0 };
+
+        kani::assert(alen >= 1 && after[alen - 1] == new, "C07.resumption.insert.record_is_at_the_tail");
+        kani::assert(alen == rem - evicted + 1, "C07.resumption.insert.len");
+        let k: usize = kani::any();
+        kani::assume(k + 1 < alen);
+        kani::assert(other(&after[k]), "C07.resumption.insert.single_record_per_peer");
+        // frame
+        let j: usize = kani::any();
+        kani::assume(j < blen);
+        if other(&before[j]) {
+            let rank = count(&before, j, other);
+            if rank >= evicted {
+                kani::assert(
+                    rank - evicted + 1 < alen && after[rank - evicted] == before[j],
+                    "C07.resumption.insert.other_records_unchanged_in_order",
+                );
+            }
+        }
+        // no fabric index appears that was not there (other than the inserted record's own)
+        kani::assert(
+            after[k].fab == new.fab || (0..blen).any(|i| before[i].fab == after[k].fab),
+            "C07.resumption.insert.no_other_fabric_appears",
+        );
+        kani::cover!(rem + 2 <= blen, "stale duplicates of the peer dropped");
+        kani::cover!(rem == blen && blen == N, "plain append");
+    }
+}
